@@ -316,7 +316,7 @@ func init() {
 	vx.Register(&vx.Prop{
 		ID:    "C18",
 		Level: "model_checking",
-		Rule: "reference expansion model (bit slices as the property words them; accumulators 12/8/16 bits, zero at the start of each file) against the real decoder: (A) every component source of record / lap / session / segment_lap / event x boundary bit patterns (incl. invalid) x every file type holding the message x both byte orders; (B) all words of length <=3 (quick) / <=4 (thorough) over 7 record variants carrying compressed_speed_distance, cycles and compressed_accumulated_power values that force 12/8/16-bit rollovers; (C) histories of 1-3 files decoded one after another in the same process and the same files chained in one stream. " +
+		Rule: "reference expansion model (bit slices as the property words them; accumulators 12/8/16 bits, zero at the start of each file) against the real decoder: (A) every component source of record / lap / session / segment_lap / event x boundary bit patterns (incl. invalid) x every file type holding the message x both byte orders; (B) all words of length <=3 (quick) / <=4 (thorough) over 7 record variants carrying compressed_speed_distance, cycles and compressed_accumulated_power values that force 12/8/16-bit rollovers, also with a further file_id record between two records; (D) sources transmitted together with an explicit destination value, both field orders; (C) histories of 1-3 files decoded one after another in the same process and the same files chained in one stream. " +
 			"Mismatches are attributed to a listed finding only if the corresponding defect model (lost high nibble; mask-0 accumulator; package-level accumulator shadowed across the whole worker history) reproduces the decoded value exactly. states = distinct reference accumulator states; transitions = records; traces = decodes compared",
 		Assumptions: []string{"no scale/offset conversion between source and destination is demanded (the property speaks of bit slices)", "EnhancedSpeed is not demanded when Speed itself was derived from compressed_speed_distance (that is C07's K8)"},
 		Run:         runC18,
@@ -529,6 +529,14 @@ func runC18(w *vx.W) {
 			states[vx.Hash(fmt.Sprint(acc))] = struct{}{}
 		}
 		do(fmt.Sprintf("records %v", word), 4, len(word)%2 == 0, [][]c18Msg{msgs}, false, "B:record-words")
+		// the same word with a further file_id record (same type) between two records: the running sums belong to
+		// the file, not to the stretch since the last file_id
+		if len(word) >= 2 && len(word) <= 3 {
+			for gap := 1; gap < len(word); gap++ {
+				with := append(append(append([]c18Msg{}, msgs[:gap]...), c18Msg{0, []c18Field{fU("Type", 1, 4)}}), msgs[gap:]...)
+				do(fmt.Sprintf("records %v with a further file_id after #%d", word, gap), 4, len(word)%2 == 0, [][]c18Msg{with}, false, "B:record-words-with-further-file_id")
+			}
+		}
 		return true
 	})
 
